@@ -95,7 +95,7 @@ PROPERTIES = {
     },
     'C11': {
         'units': ['keys', 'index', 'store', 'storelemmas', 'addr'],
-        'sample_functions': ['Lmdb::mark_naddr_deleted', 'Lmdb::when_is_naddr_deleted', 'Lmdb::key_naddr_index'],
+        'sample_functions': ['Store::handle_deletion_event', 'Lmdb::mark_naddr_deleted', 'Lmdb::when_is_naddr_deleted', 'Lmdb::key_naddr_index'],
         'not_decided': [],
     },
     'C06': {
@@ -119,7 +119,7 @@ def _close_units():
     body` (units/*.unit), to a fixpoint.  Functions whose body is in no unit stay assumptions (listed in the evidence)."""
     import os
     here = os.path.dirname(os.path.dirname(os.path.abspath(__file__)))
-    bodies, standins = {}, {}
+    bodies, standins, envs = {}, {}, {}
     for f in sorted(os.listdir(os.path.join(here, 'units'))):
         if not f.endswith('.unit'):
             continue
@@ -130,6 +130,13 @@ def _close_units():
                 bodies.setdefault((p[1], p[2]), []).append(u)
             elif len(p) >= 3 and p[0] == 'standin':
                 standins.setdefault(u, []).append((p[1], p[2]))
+            elif len(p) == 2 and p[0] == 'env':
+                envs.setdefault(u, []).append(p[1])
+    # `env FILE` stands for a stand-in of every contracted function of that file
+    for u, files in envs.items():
+        for key in bodies:
+            if key[0] in files and u not in bodies[key]:
+                standins.setdefault(u, []).append(key)
     for pid, P in PROPERTIES.items():
         units = list(P['units'])
         added = []
@@ -140,7 +147,7 @@ def _close_units():
                 for s in standins.get(u, ()):
                     owners = bodies.get(s)
                     if owners and not any(o in units for o in owners):
-                        units.append(owners[0]); added.append(owners[0]); changed = True
+                        o = min(owners, key=lambda x: (x != 'small', x)); units.append(o); added.append(o); changed = True
         P['declared_units'] = list(P['units'])
         P['closure_units'] = added
         P['units'] = units
